@@ -18,8 +18,9 @@ RULE = ("set-ups in a Cartesian system: (Stokes) closed curve vs spanning surfac
         "non-trivial = expected value != 0; distinct = distinct (set-up, field).")
 ASSUMPTIONS = ["mpmath.quad of the integrand pulled back with plain sympy subs/diff (no library code) is the reference value",
                "a SymPy integrate() that stalls (watchdog) is inconclusive"]
-N = {"quick": 48, "thorough": 640}
-MIN_REACH = {"quick": {"dependent_limits": 2, "region_reparametrised": 6, "stokes": 12, "green": 8, "gauss": 8, "quadrature": 25, "reparametrisation": 5, "free_symbols": 40},
+N = {"quick": 96, "thorough": 960}
+MIN_REACH = {"quick": {"dependent_limits": 4, "region_reparametrised": 12, "stokes": 24, "green": 16, "gauss": 16, "quadrature": 50, "reparametrisation": 10, "free_symbols": 80,
+                       "two_component_field_off_plane": 3, "planar_field_depending_on_z": 5},
              "thorough": {"stokes": 150, "green": 100, "gauss": 100}}
 SHARD_TIMEOUT = {"quick": 900, "thorough": 3300}
 mpmath.mp.dps = 25
@@ -111,16 +112,24 @@ def stokes_setup(run: Run, cs, idx):
     t, s = sympy.symbols("t s", real=True)
     bs = cs.coord_system.base_scalars()
     symbolic = idx % 3 == 0
-    shape = r.choice(["ellipse", "tilted", "cone", "rectangle", "triangle", "triangle", "disc-cartesian"])
+    shape = r.choice(["ellipse", "tilted", "tilted", "cone", "cone", "rectangle", "rectangle-xz", "rectangle-xz", "triangle", "triangle", "disc-cartesian"])
     F, coefs = make_field(r, cs, trig=(shape == "rectangle" and r.random() < 0.5), symbolic=symbolic)
     coefvals = {c: sympy.Rational(r.randint(-30, 30), 10) for c in coefs}
-    field = VectorField.from_vector(Vector(F, cs))
+    # two-component fields [P(x,y,z), Q(x,y,z)] (the third component is implicitly zero); on the off-plane shapes always one in two
+    two = r.random() < (0.5 if shape in ("tilted", "cone", "rectangle-xz") else 0.25)
+    if two:
+        field = VectorField.from_vector(Vector(F[:2], cs))
+        F = F[:2] + [sympy.Integer(0)]
+        if shape in ("tilted", "cone", "rectangle-xz"):
+            rec.hit("two_component_field_off_plane")
+    else:
+        field = VectorField.from_vector(Vector(F, cs))
     cx, cy = r.choice([0, 1, -2, sympy.Rational(1, 2)]), r.choice([0, 1, 2, -1])
     R = r.choice([1, 2, sympy.Rational(3, 2)])
     a, b = r.choice([1, 2, 3]), r.choice([1, 2])
     z0 = r.choice([0, 0, 1, -2])
     case = {"theorem": "stokes", "shape": shape, "field": [str(c) for c in F], "centre": [str(cx), str(cy)], "R": str(R), "ab": [a, b], "z0": z0,
-            "coefficients": {str(k): str(v) for k, v in coefvals.items()}}
+            "coefficients": {str(k): str(v) for k, v in coefvals.items()}, "two_component_field": two}
     forbidden = list(bs) + [t, s]
     if shape in ("triangle", "disc-cartesian"):
         # surfaces whose inner integration limits depend on the outer parameter
@@ -153,6 +162,16 @@ def stokes_setup(run: Run, cs, idx):
             return
         circ = sum(parts)
         surf = run.call("circulation_along_surface_boundary", lambda: A.circulation_along_surface_boundary(field, [t, s, z0], (t, x0, x1), (s, y0, y1)), case)
+        want = sum(quad_curve(F, bs, g, t, lo, hi, coefvals) for g, lo, hi in segs)
+    elif shape == "rectangle-xz":
+        # rectangle in a plane y = y0 (normal along Y), counter-clockwise seen from +Y: z first, then x
+        x0, x1, zz0, zz1, y0 = cx, cx + a, z0, z0 + b, cy
+        segs = [([x0, y0, zz0 + (zz1 - zz0) * t], 0, 1), ([x0 + (x1 - x0) * t, y0, zz1], 0, 1), ([x1, y0, zz1 - (zz1 - zz0) * t], 0, 1), ([x1 - (x1 - x0) * t, y0, zz0], 0, 1)]
+        parts = [run.call("circulation_along_curve", lambda g=g: A.circulation_along_curve(field, g, (t, lo, hi)), case) for g, lo, hi in segs]
+        if any(p is None for p in parts):
+            return
+        circ = sum(parts)
+        surf = run.call("circulation_along_surface_boundary", lambda: A.circulation_along_surface_boundary(field, [s, y0, t], (t, zz0, zz1), (s, x0, x1)), case)
         want = sum(quad_curve(F, bs, g, t, lo, hi, coefvals) for g, lo, hi in segs)
     else:
         if shape == "ellipse":
@@ -225,8 +244,12 @@ def green_setup(run: Run, cs, idx):
     bs = cs.coord_system.base_scalars()
     symbolic = idx % 3 == 0
     F3, coefs = make_field(r, cs, symbolic=symbolic)
-    # planar field: components depend on x, y only
-    F = [c.subs(bs[2], 0) for c in F3[:2]]
+    # planar field; in half of the set-ups its components also depend on z (the region lies in the plane z = 0, where a
+    # two-component point is located, so the theorem is the one of the field restricted to that plane)
+    zdep = r.random() < 0.5
+    F = list(F3[:2]) if zdep else [c.subs(bs[2], 0) for c in F3[:2]]
+    if zdep and any(c.has(bs[2]) for c in F):
+        rec.hit("planar_field_depending_on_z")
     coefvals = {c: sympy.Rational(r.randint(-30, 30), 10) for c in coefs}
     field = VectorField.from_vector(Vector(F, cs))
     cx, cy = r.choice([0, 1, -2]), r.choice([0, 1, 2])
